@@ -34,9 +34,10 @@ const (
 )
 
 // cases [0, baseCases) are the reformulation cases (their indices are stable: pinned witnesses of
-// listed findings refer to them), cases [baseCases, baseCases+historyCases) the history cases.
+// listed findings refer to them), cases [baseCases, baseCases+historyCases) the history cases, the
+// idEncCases after them the ID-encoding cases. New kinds of cases are appended, never inserted.
 func (c20) NumCases(tier string) int {
-	return baseCases(tier) + historyCases(tier)
+	return baseCases(tier) + historyCases(tier) + idEncCases(tier) + selfFragCases(tier)
 }
 
 func guardQuery(r *rig, query string) string {
@@ -62,7 +63,9 @@ func (c20) Rule() string {
 		"root answers with emptied lists / unset objects, resolve RPCs whose results are all or partly null / empty, RPCs failing with Unavailable); the first request mostly in the unvaried world, every 6th request repeats an earlier one byte for byte (same arena key). " +
 		"Oracle H history independence — each answer of the re-used instance equals (same kind data/errors; data: canonical JSON) the answer of a NEVER-USED DataSource of the same operation to that single request in the same world (no ground truth needed); oracles A and C run on every answer of the re-used instance. " +
 		"Every second history case then serves the same requests from 3-6 goroutines x 2 rounds on the shared instance under the race detector, each answer judged by H against the sequential reference. " +
-		"A history case is non-trivial when >=1 answer after an earlier request was compared."
+		"A history case is non-trivial when >=1 answer after an earlier request was compared. " +
+		"ID-ENCODING cases (appended after the history cases; 300 quick / 4500 thorough): an entity lookup, a root operation over fields taking an ID (directly or inside input objects), or any root operation, whose integer-looking ID values (Int literals, JSON numbers in variables, input-object fields, list items, keys and @requires fields of representations) are written as numbers in q' and as strings in q; oracles A, C on both (entity i echoes the key of representation i in string form), B between them; non-trivial when >=1 ID was a number and >=1 field position was compared. " +
+		"SELF-FRAGMENT cases (appended last; 300 quick / 4500 thorough): q = a resolver-boosted operation already in the datasource's input form without normalisation (every argument a variable, no named fragments, no duplicates), q' = q with the direct fields of selection sets on an interface (below root, resolver, @requires and plain fields) moved into `... on <that interface>`; both go parse -> NewDataSource -> Load like the package's own tests (the planner's normalisation would flatten exactly this fragment, and the schema has no other abstract-in-abstract shape); oracles A, C on both, B between them."
 }
 
 func (c20) Assumptions() []string {
@@ -78,6 +81,8 @@ func (c20) Assumptions() []string {
 		"a DataSource is shared by concurrent requests (graphql_datasource plans it into the fetch of a plan that ExecutionEngine caches), so concurrent Loads on one instance are in scope; a data race with a repository frame is a violation",
 		"history: two failed answers are the same answer whatever their error text (which of several failing RPCs is reported is not judged); a request whose never-used answer is not reproducible within the case is counted (history_fresh_answers_unstable), not judged; more/fewer RPCs with an equal answer are counted, not judged",
 		"the worlds only remove data (empty list, unset message) or fail a call; a resolve RPC keeps one result per context element",
+		"ID values are written as numbers only when they are non-negative integers below 2^31 (floats and big integers are not legal IDs); String values are never written as numbers",
+		"self-fragment cases are the one place where an un-normalised operation reaches the datasource: a fragment on the interface a selection set is made on; it is unreachable through the engine with this schema (graphql_datasource's print kit merges it), so a violation there concerns the datasource's own API (NewDataSource + Load), as exercised by the package's tests",
 	}
 }
 
@@ -87,7 +92,9 @@ func (c20) RequiredCounters(string) []string {
 		"abstract_positions", "entity_operations_succeeded", "entity_keys_checked",
 		"engine_operations", "engine_upstream_operations_judged", "engine_reformulations_compared", "cross_path_field_positions_compared",
 		"history_cases", "history_variants", "history_answers_compared_after_a_different_request", "history_requests_skipping_calls_made_earlier", "history_fresh_answers_data", "history_fresh_answers_failed",
-		"history_operations_with_2_resolver_levels", "history_operations_with_3_resolver_levels", "history_answers_judged_by_projection_oracles", "history_concurrent_answers_compared"}
+		"history_operations_with_2_resolver_levels", "history_operations_with_3_resolver_levels", "history_answers_judged_by_projection_oracles", "history_concurrent_answers_compared",
+		"idenc_numeric_ids", "idenc_reformulations_compared", "idenc_field_positions_compared",
+		"selffrag_reformulations_compared", "selffrag_fragments_below_resolver", "selffrag_fragments_below_root", "selffrag_field_positions_compared"}
 }
 
 // ---- one execution + oracle A/C -----------------------------------------------------------------
@@ -582,6 +589,12 @@ var masks = [reformsPerOp]int{1 | 8, 4 | 16, 2, 0}
 
 func (p c20) Run(c *fw.Ctx, idx int) fw.Result {
 	if b := baseCases(c.Tier); idx >= b {
+		if hc := historyCases(c.Tier); idx >= b+hc {
+			if ic := idEncCases(c.Tier); idx >= b+hc+ic {
+				return p.runSelfFragment(c, idx, idx-b-hc-ic)
+			}
+			return p.runIDEncoding(c, idx, idx-b-hc)
+		}
 		return p.runHistory(c, idx, idx-b)
 	}
 	res := fw.Result{Key: fw.HashKey("C20", c.Seed, idx)}
